@@ -220,6 +220,11 @@ def add(chk, tier, seed):
             continue
         chk.violation("C12.B.quotes_caller_exactly", msg, replay={"kind": "case", "case": {"entry": name, "description": d, "quoted": quoted}}, found_input=True)
     chk.add_bounded("quoted expression of SyntaxErrors raised through public entry points equals the caller's description", "8 malformed descriptions x 6 entry points", 48, 48, failures=qt)
+    for op, d, shape, msg in nested_ellipsis_cases():
+        if is_known_nested_ellipsis(d, msg):
+            chk.known_finding("F-reprint-nested-ellipsis", "a bracketed ellipsis directly under another ellipsis ('[a...]...') is printed as 'a......' when an adapter builds its elementary-operation string, which the parser rejects")
+            continue
+        chk.violation("C12.B.elop_text", f"einx.{op}({d!r}, shape={shape}) fails with a SyntaxError: {msg[:160]}", replay={"kind": "case", "case": {"op": op, "description": d, "shape": list(shape)}}, found_input=True)
     dn = deep_nesting_cases()
     for ob, s_, detail in dn:
         chk.violation(ob, detail, replay={"kind": "case", "case": {"string": s_}}, found_input=True)
@@ -231,6 +236,26 @@ def add(chk, tier, seed):
             continue
         chk.violation("C12.B.elop_text", f"einx.{op}({d!r}, shape={shape}) fails with: {msg}", replay={"kind": "case", "case": {"op": op, "description": d, "shape": list(shape)}}, found_input=True)
     chk.add_bounded("el_op strings built by adapters (reduce/preserve_shape/argfind) through the public API", f"{len(ELOP_DESCS)} descriptions x {len(ELOP_OPS)} ops x 3 ranks", len(ELOP_DESCS) * len(ELOP_OPS) * 3, len(ELOP_DESCS) * len(ELOP_OPS), failures=el)
+
+
+def is_known_nested_ellipsis(caller_text, message):
+    """predicate of the recorded finding F-reprint-nested-ellipsis, and nothing wider: the caller wrote a bracketed ellipsis directly under another ellipsis ('[a...]...') and the text
+    einx complains about is exactly that axis printed with both ellipses run together ('a......')"""
+    import re
+    for m in re.finditer(r"\[\s*([A-Za-z_][A-Za-z0-9_]*)\s*\.\.\.\s*\]\s*\.\.\.", caller_text):
+        if (m.group(1) + "......") in message:
+            return True
+    return False
+
+
+def nested_ellipsis_cases():
+    import einx
+    out = []
+    for op, d, shape in (("sum", "[a...]...", (2, 3)), ("max", "b [a...]...", (2, 3, 4)), ("flip", "[a...]...", (2, 3)), ("sum", "[a...]", (2, 3)), ("sum", "b [a...]", (2, 3, 4))):
+        o = harness.outcome(lambda: getattr(einx, op)(d, np.zeros(shape)), 15)
+        if o[0] == "exc" and o[1] == "einx.errors.SyntaxError":
+            out.append((op, d, shape, o[2]))
+    return out
 
 
 def deep_nesting_cases():
